@@ -33,18 +33,18 @@ func init() {
 			"1% of params values are the name of another module) x EVERY module as output x {production, development} at first streamable block 0, plus production at a first streamable block in {1,3,10}. " +
 			"Each exec.NewOutputModuleGraph call runs under a 20 s timer (60 s on retry). On success the harness checks, with its own reachability over the protobuf (inputs in get and deltas mode + block-filter module): " +
 			"every needed module in exactly one layer; every module it reads from in a strictly earlier layer of the flattened stage/layer order; no unneeded module in StagedUsedModules/UsedModules/Stores; layers homogeneous (stores | non-stores); " +
-			"a store layer is the last layer of its stage and every stage but the last ends with a store layer; with the initial blocks of ModulesInitBlocks() every module has an input that exists at its initial block (source/clock/params always exist; map/store input exists from its module's initial block). " +
+			"a store layer is the last layer of its stage and every stage but the last ends with a store layer; with the initial blocks of ModulesInitBlocks() every module has an input that exists at its initial block (source/clock always exist; params only when it is the single input; map/store input exists from its module's initial block). " +
 			"An error on a valid graph at first streamable block 0 is a violation. Every 8th case is a 'hostile' graph (one rule of the manifest broken but accepted by service.ValidateTier1Request/ValidateTier2Request): only termination and, on success, the same invariants are judged. " +
 			"non-trivial = (graph, output) whose staging has >= 2 stages and >= 3 needed modules; distinct by (graph rendering, output)",
 		Assumptions: []string{
 			"a valid graph is what harness/gen/modgraph_b.go MGOwnCheck states (manifest rules + request validation rules + one input available at the initial block, params counting only for params-only modules) and manifest.ValidateModules + manifest.NewModuleGraph accept",
 			"'reads from' = map inputs, store inputs (get and deltas) and the block-filter module; a params VALUE is free text and never a dependency",
-			"'given initial block' is what Graph.ModulesInitBlocks() reports; for the existence check a params input is accepted as always existing (weaker than the code's own rule, so never a false alarm)",
+			"'given initial block' is what Graph.ModulesInitBlocks() reports; for the existence check a params value counts as an existing input only for a params-only module (which receives the clock); with other inputs present the engine does not run the module until one of them exists, so params cannot vouch for them — the same rule the graph construction applies, hence no alarm on a tree that enforces it",
 			"hostile class 'untyped-input' (an input with no oneof member set passes request validation and makes computeStages panic) is reported as a counter only: such an input is outside the property's quantifier",
 		},
 		Cases: func(tier, mode string) int {
 			if tier == "thorough" {
-				return 200000
+				return 1000000
 			}
 			return 12000
 		},
@@ -394,7 +394,7 @@ func checkInvariants(c *fw.Case, mods *pbsubstreams.Modules, out string, g view,
 			}
 			return by[n].InitialBlock
 		}
-		if !gen.MGInputAvailable(by[name], initOf, at, false) {
+		if !gen.MGInputAvailable(by[name], initOf, at, true) {
 			viol("C14/no-input-at-initial-block", fmt.Sprintf("module %q is given initial block %d but none of its inputs exists at that block", name, at))
 		}
 	}
